@@ -251,6 +251,8 @@ class Evaluator:
             if ck.startswith("Ctor"):
                 return self._call(norm(e.get("ctor_of") or e["callee"]), args, e, ctx, is_ctor=True)
             callee = norm(e.get("resolved") or e["callee"])
+            if norm(e["callee"]) in self.identity and args:
+                return args[0]
             return self._call(callee, args, e, ctx)
         f = self.ev(e["f"], env, ctx)
         if f[0] == "closure" and False:
